@@ -163,9 +163,15 @@ def _type_tests_on(fn, params):
     """nodes of fn that test the type / identity-with-a-bool of a parameter"""
     hits = []
     for x in ast.walk(fn):
-        if isinstance(x, ast.Call) and isinstance(x.func, ast.Name) and x.func.id in ("isinstance", "type", "str", "repr", "format") and x.args and isinstance(x.args[0], ast.Name) and x.args[0].id in params:
+        if isinstance(x, ast.Call) and isinstance(x.func, ast.Name) and x.func.id in ("type", "str", "repr", "format") and x.args and isinstance(x.args[0], ast.Name) and x.args[0].id in params:
             # str(1) / str(1.0) / str(True) differ while the three arguments are equal and hash alike
             hits.append(x)
+        if isinstance(x, ast.Call) and isinstance(x.func, ast.Name) and x.func.id == "isinstance" and len(x.args) == 2 and isinstance(x.args[0], ast.Name) and x.args[0].id in params:
+            # only classes whose instances can be equal to (and hash like) instances of another class tell cache-equal arguments
+            # apart: the numeric tower.  isinstance(x, SplitResult), isinstance(x, bytes) ... separate arguments that are never equal.
+            classes = x.args[1].elts if isinstance(x.args[1], (ast.Tuple, ast.List)) else [x.args[1]]
+            if any(isinstance(c, ast.Name) and c.id in ("bool", "int", "float", "complex", "Number", "Integral", "Real", "Decimal", "Fraction") for c in classes):
+                hits.append(x)
         if isinstance(x, ast.FormattedValue) and isinstance(x.value, ast.Name) and x.value.id in params:
             hits.append(x)
         if isinstance(x, ast.Compare) and isinstance(x.left, ast.Name) and x.left.id in params and any(isinstance(o, (ast.Is, ast.IsNot)) for o in x.ops) \
@@ -189,6 +195,8 @@ def cached_type_dependence_in(tree):
                 continue
             params = set(a.arg for a in fn.args.args + fn.args.kwonlyargs + fn.args.posonlyargs)
             hits = _type_tests_on(fn, params)
+            # a parameter every caller in the module hands a bool(...) / comparison / literal constant of one type is not at stake
+
             # one level of helpers called with a parameter
             for c in ast.walk(fn):
                 if isinstance(c, ast.Call) and isinstance(c.func, ast.Name) and c.func.id in funcs and c.func.id != fn.name:
